@@ -150,7 +150,7 @@ def wild_case(draw, max_len=24, nprobes=4, attach_bias=1):
         pr = draw(gdlgen.probe(spec, max_len))
         pr['dir'] = draw(st.integers(0, 7))
         pr['enc'] = draw(st.sampled_from([1, 2, 4]))
-        pr['ppm'] = draw(st.sampled_from([0.0, 0.0, 12.0, 1000.0]))
+        pr['ppm'] = draw(st.sampled_from([0.0, 0.0, 12.0, 1000.0, -13.0]))
         if spec.get('pseudos') and draw(st.booleans()):
             pr['text'].insert(draw(st.integers(0, len(pr['text']))), spec['pseudos'][0][0])
         probes.append(pr)
